@@ -120,6 +120,35 @@ def gen_scc(rng, tier):
             edges.append((u, v))
         # parallel edges allowed
         cases.append(scc_case("sccR%d" % i, keys, edges, rng, 3))
+    # graphs with a history: parallel edges connected and disconnected again, isolates, refused try_connects, then scc
+    for i in range(3000 if tier == "thorough" else 250):
+        n = rng.randint(2, 7)
+        keys = rng.sample(range(1, 500), n)
+        steps = ["new %d 0" % k for k in keys]
+        for j in range(rng.randint(2, 3 * n)):
+            u, v = rng.randrange(n), rng.randrange(n)
+            steps.append("con %d %d %d" % (u, v, 10 + j))
+            if rng.random() < 0.35:
+                steps.append("con %d %d %d" % (u, v, 50 + j))     # a parallel edge
+        for j in range(rng.randint(1, 8)):
+            r = rng.random()
+            u, v = rng.randrange(n), rng.randrange(n)
+            if r < 0.6:
+                steps.append("dis %d %d" % (u, keys[v]))
+            elif r < 0.7:
+                steps.append("iso %d" % u)
+            elif r < 0.8:
+                steps.append("try %d %d %d" % (u, v, 90 + j))
+            else:
+                steps.append("con %d %d %d" % (u, v, 70 + j))
+        steps.append("snap")
+        for gi in range(2):
+            steps.append(rng.choice(GNEW))
+            order = list(range(n))
+            rng.shuffle(order)
+            steps += ["gins %d %d" % (gi, u) for u in order]
+        steps += ["gscc 0", "gscc 1"]
+        cases.append(Case("sccM%d" % i, "D", steps, dict(kind="scc-after-removals", nodes=n)))
     # large graphs: long cycles, chains of components, sparse random graphs on 80-200 nodes
     for i in range(60 if tier == "thorough" else 6):
         n = rng.randint(80, 200)
@@ -159,10 +188,19 @@ def oracle_scc(case, obs):
         if t[0] == "gins":
             members.setdefault(int(t[1]), set()).add(int(t[2]))
     allsccs = true_sccs(len(keys), edges)
+    mutated = any(s.split()[0] in ("dis", "iso", "try") for s in case.steps)
     for (si, text) in obs:
         st = case.steps[si]
         if text.startswith("panic"):
             return "step %d `%s` panicked" % (si, st)
+        if st == "snap" and mutated:
+            # the graph has a history of removals: its edges are what the implementation itself reports (outgoing lists)
+            nodes = nc.parse_snap(text)
+            if nodes is None:
+                return "step %d: snapshot failed" % si
+            idx = {nd["key"]: i for i, nd in enumerate(nodes)}
+            edges = [(idx[s], idx[t]) for nd in nodes for (s, t, e) in nd["out"]]
+            allsccs = true_sccs(len(keys), edges)
         if st.startswith("gscc"):
             mem = members.get(int(st.split()[1]), set())
             if any((u in mem) != (v in mem) for (u, v) in edges) or any(u not in mem for (u, v) in edges if v in mem):
@@ -234,6 +272,18 @@ def gen_container(cls, rng, tier):
                         steps.append("gdota 0 %d %d %d" % (ga, na, ea))
         steps.append("gdot 0")
         cases.append(Case("dot%s%d" % (cls, gi), cls, steps, dict(kind="dot", nodes=g.n)))
+    # DOT exports of empty containers (never populated; emptied by remove) with every callback combination
+    for variant in range(2):
+        ks = [7, 8]
+        steps = ["new 7 1", "new 8 2", "con 0 1 5", "gnew"]
+        if variant:
+            steps += ["gins 0 0", "gins 0 1", "grem 0 99", "grem 0 7", "grem 0 8"]
+        for ga in (0, 1, 2):
+            for na in (0, 1):
+                for ea in (0, 1):
+                    steps.append(("only:ungraph " if cls == "U" else "") + "gdota 0 %d %d %d" % (ga, na, ea))
+        steps += ["gdot 0", "glen 0", "gvec 0", "gorph 0"]
+        cases.append(Case("dotE%s%d" % (cls, variant), cls, steps, dict(kind="dot-empty-container")))
     # dense hubs: few nodes, many edges in both directions, then removals, then the views
     for ci in range(1500 if tier == "thorough" else 120):
         n = rng.randint(3, 6)
@@ -482,6 +532,11 @@ def oracle_container(case, obs):
             toks = rest.split()[1:]
             nodes_t = [x for x in toks if x.startswith("N:")]
             edges_t = [x for x in toks if x.startswith("E:")]
+            # graph attributes: exactly those the graph callback supplies (variant 1: rankdir and label; 0 and 2: none)
+            gattrs = sorted(x for x in toks if x.startswith("G:"))
+            want_g = sorted(['G:rankdir="LR"', 'G:label="g"']) if (op == "gdota" and t[2] == "1") else []
+            if gattrs != want_g:
+                return "step %d `%s`: graph attribute statements %s, the callback supplies %s" % (si, st, gattrs, want_g)
             mem = sorted(g)
             if sorted(int(x.split(":")[1]) for x in nodes_t) != mem:
                 return "step %d `%s`: node statements %s, members %s" % (si, st, nodes_t, mem)
@@ -515,6 +570,14 @@ def gen_roundtrip(cls, rng, tier):
                 steps += ["gser %d %s" % (gi, fmt), "grt %d %s" % (gi, fmt)]
         cases.append(Case("rt%s%d" % (cls, idx), cls, steps, dict(kind="small-graph-roundtrip", edges=len(g.edges))))
         idx += 1
+    # degenerate sizes: the empty graph, one node (orphan, self-loops, parallel self-loops), two nodes
+    for n, m in ((0, 0), (1, 3), (2, 3)):
+        for g in sc.all_graphs(cls, n, m):
+            steps = g.steps() + ["snap", "gnew"] + ["gins 0 %d" % u for u in range(g.n)]
+            for fmt in ("json", "cbor"):
+                steps += ["gser 0 %s" % fmt, "grt 0 %s" % fmt]
+            cases.append(Case("rt0%s%d" % (cls, idx), cls, steps, dict(kind="degenerate-graph-roundtrip", nodes=n, edges=len(g.edges))))
+            idx += 1
     if tier == "thorough":
         for g in sc.all_graphs(cls, 2, 4):
             steps = g.steps() + ["snap", "gnew"] + ["gins 0 %d" % u for u in range(g.n)]
